@@ -1078,8 +1078,118 @@ def corr_conv_ops(ctx, corr):
                                            what="conversion operator `%s`: %s" % (' '.join(toks), msg)))
 
 
+# ---------------------------------------------------------------------------
+# overloaded operators as members: extracted op_member_stmt (Parse/OperatorMember.v) vs parse_string of `struct S_ { ... };`
+
+OPM_OPS = [['=', '='], ['='], ['+'], ['-', '>'], ['->'], ['(', ')'], ['[', ']'], ['<', '<'], ['<<'], ['<'], ['>'], ['<', '='], ['!'], ['+', '='], ['*'], ['&'],
+           ['&&'], ['||'], [','], ['~'], ['%', '='], ['new'], ['new', '[', ']'], ['delete'], ['<', '=', '>'], ['^'], ['|'], ['/'], ['-', '-'], ['+', '+']]
+
+
+def real_op_member(text):
+    from harness import decl
+    try:
+        d = impl.parse_string('struct S_ { %s };' % text)
+    except (impl.CxxParseError, AssertionError, RecursionError):
+        return ('err',)
+    ns = d.namespace
+    if len(ns.classes) != 1:
+        return ('other',)
+    c = ns.classes[0]
+    if len(c.methods) != 1 or c.fields or c.classes or c.typedefs or c.using or c.friends:
+        return ('other',)
+    o = c.methods[0]
+    if not o.operator or o.operator == 'conversion' or o.has_trailing_return or o.raw_requires or o.template or o.msvc_convention or len(o.name.segments) != 1:
+        return ('other',)
+    if o.name.segments[0].name != 'operator' + o.operator or o.name.segments[0].specialization:
+        return ('other',)
+    val = lambda x: None if x is None else tuple(t.value for t in x.tokens)
+    try:
+        ps = tuple((decl.from_real(q.type), q.name) for q in o.parameters)
+        if any(q.default is not None or q.param_pack for q in o.parameters):
+            return ('other',)
+        t = ('F', decl.from_real(o.return_type), ps, o.vararg)
+    except decl.Unrepresentable:
+        return ('other',)
+    return ('ok', (o.constexpr, o.extern, o.inline, o.static, o.explicit, o.virtual), o.operator, t,
+            (o.const, o.volatile, o.override, o.final, {None: 0, '&': 1, '&&': 2}[o.ref_qualifier], val(o.throw), val(o.noexcept),
+             o.pure_virtual, o.deleted, o.default, o.has_body))
+
+
+def corr_op_members(ctx, corr):
+    from harness import decl
+    from harness.props import c02
+    rng = ctx.rng
+    cases = []
+    for _ in range(ctx.scale(800, 16000)):
+        pre = [rng.choice(['constexpr', 'virtual', 'inline', 'static', 'explicit', 'const']) for _ in range(rng.choice([0, 0, 1, 2]))]
+        ty = [rng.choice(['Foo', 'T', 'bool_t', 'Bar', 'void'])]
+        for _ in range(rng.choice([0, 0, 1, 2])):
+            ty += rng.choice([['*'], ['*', 'const'], ['&'], ['&&']])
+        ps = []
+        for j in range(rng.choice([0, 1, 1, 2])):
+            while True:
+                q = decl.rand_type(rng, rng.choice([0, 1, 2]))
+                if decl.var_ok(q):
+                    break
+            ps.append((q, rng.choice([None, 'a%d' % j])))
+        toks = pre + ty + ['operator'] + list(rng.choice(OPM_OPS)) + ['('] + decl.print_params(tuple(ps), False) + [')']
+        for _ in range(rng.choice([0, 1, 1, 2])):
+            toks += rng.choice(MS_QUALS)
+        toks += list(rng.choice(MS_ENDS))
+        cases.append(toks)
+        if rng.random() < 0.3:
+            cases.append([t for t in c02.mutate(rng, toks) if t != '}'] or [';'])
+    lines, nms = [], []
+    for toks in cases:
+        names = decl.Names()
+        lines.append([114] + decl.enc_tokens(toks + ['}', ';'], names))
+        nms.append(names)
+    for toks, o, names in zip(cases, run_driver(lines), nms):
+        corr.cases += 1
+        if o[0] == 0:
+            fl = [bool(x) for x in o[2:11]]
+            nop = o[11]
+            op = ''.join(names.rev[o[12 + 2 * j + 1]] if o[12 + 2 * j + 1] else impl.TT[o[12 + 2 * j]] for j in range(nop))
+            i = 12 + 2 * nop
+            ln = o[i]
+            t, _j = decl.dec_type(o, i + 1, names)
+            i = i + 1 + ln
+
+            def opt(i):
+                if o[i] == 0:
+                    return None, i + 1
+                cnt = o[i + 1]
+                vals = tuple(names.rev[o[i + 2 + 2 * q + 1]] if o[i + 2 + 2 * q + 1] else impl.TT[o[i + 2 + 2 * q]] for q in range(cnt))
+                return vals, i + 2 + 2 * cnt
+            q5 = (bool(o[i]), bool(o[i + 1]), bool(o[i + 2]), bool(o[i + 3]), o[i + 4])
+            i += 5
+            th, i = opt(i)
+            ne, i = opt(i)
+            q = q5 + (th, ne, bool(o[i]), bool(o[i + 1]), bool(o[i + 2]), bool(o[i + 3]))
+            m = ('ok', (fl[2], fl[3], fl[4], fl[5], fl[6], fl[7]), op, t, q, o[1])
+        else:
+            m = ('err', o[1])
+        r = real_op_member(' '.join(toks))
+        k = "opmember:" + (m[0] if m[0] == 'ok' else 'err%d' % m[1]) + "/" + r[0]
+        corr.dist[k] = corr.dist.get(k, 0) + 1
+        msg = None
+        if m[0] == 'ok' and m[5] == 2:
+            if r[0] == 'err':
+                msg = "model decodes the operator member but the implementation rejects it"
+            elif r[0] == 'ok' and r[1:] != m[1:5]:
+                msg = "model %s; implementation %s" % (m[1:5], r[1:])
+        elif m[0] == 'err' and m[1] in (1, 2, 3) and r[0] == 'ok':
+            msg = "model rejects (code %d) but the implementation reports %s" % (m[1], r[1:])
+        elif m[0] == 'err' and m[1] == 9:
+            msg = "model ran out of fuel"
+        if msg:
+            corr.disagreements.append(dict(case=dict(kind='corr-opmember', tokens=toks), model=str(m)[:400], impl=str(r)[:400],
+                                           what="operator member `%s`: %s" % (' '.join(toks), msg)))
+
+
 def correspond(ctx):
     corr = c05.correspond(ctx)
+    corr_op_members(ctx, corr)
     corr_conv_ops(ctx, corr)
     corr_finish(ctx, corr)
     corr_op_names(ctx, corr)
